@@ -16,6 +16,8 @@ TEXT = {
  'C10': ('Bounded model checking: encoder operations return the bytes appended (L1); with an arbitrary positive size per encoder call every *::write returns exactly the sum (L2).', '4 C10'),
  'C03': ('Bounded symbolic model checking of every read-side unit that touches untrusted bytes (decoder primitives on arbitrary input, renderers on arbitrary strings) plus an SMT verdict over all 64-bit values for the time-offset arithmetic; memory safety = CBMC pointer/bounds checks inside the real code.', '4 C03'),
  'C11': ('Solver verdict for all values of each table key type (hash/equality agreement, two symbolic values) and bounded model checking of whole BlockTable histories (<= 3 symbolic additions + queries).', '4 C11'),
+ 'C12': ('Bounded model checking of one exporter step from an arbitrary valid state (inductive): flush exactly at the configured size, conservation of records across a flush, re-arming with the active parameter set, counters.', '4 C12, 3.2'),
+ 'C20': ('Inventory of library-owned mutable globals and external calls recomputed from the IR on every run + solver-checked footprint (no store can alias such a global) on representative entry points of every unit; schedules themselves are not explored.', '4 C20, 3.9'),
  'C13': ('Bounded model checking of rotation at the writer and encoder layers: a rotation that returns normally has closed the old output; all buffered bytes reach the old sink first. Exporter-level rotation histories: see notes.', '4 C13'),
  'C14': ('Bounded model checking of the real gzip driver against a nondeterministic model of the zlib API (progress, FINISH/STREAM_END), ghost byte accounting; compression itself is trusted.', '4 C14'),
  'C15': ('Bounded model checking of Writer<std::string> histories against a file-system model that checks the completeness invariant at every stub call (= every instant the process could die).', '4 C15'),
